@@ -257,6 +257,9 @@ def run(rep, tier, seed, pa):
         else:
             flags = {f: rng.random() < 0.5 for f in FLAGS}
         include_ref = rng.random() < 0.3
+        if ri < 4:       # no perturbation at all, with and without the reference (the corner where there is "nothing to do")
+            flags = {f: False for f in FLAGS}
+            include_ref = ri % 2 == 0
         desc = {"units": units, "magnitude": m, "annotators": anns, "flags": flags, "include_ref": include_ref}
         if ri % 3 == 2:
             desc["constructed_with_magnitude"] = rng.choice([x for x in (0.0, 0.5, 1.0) if x != m])
